@@ -8,6 +8,9 @@ machinery itself fails.
  synth       synth_circuit_from_stabilizers: prepares the signed group; raises for invalid input
  same        do_prepare_same_state = equality of the prepared signed groups
  parse       parse_circuit against the documented grammar (including tokens it silently skips)
+ zpauli      z_pauli_from_bitstring: Z exactly on the set bits (little-endian), no X part, phase 0 (exhaustive n <= 6)
+ pairidx     linear_index_from_n_choose_2 = lexicographic rank of the pair, linear_index_to_n_choose2_to its inverse (exhaustive)
+ repr        NTuple / Repr: sorted tuples, grouping by length in insertion order, flatten, equality
 """
 import itertools
 
@@ -72,6 +75,11 @@ def run(tier):
         exp = C17.independent_parse(bad)
         pj.append((3, bad, exp, 0 if any(g[0].startswith("?") for g in exp) else 1))
     recs += par.pmap(workers.parse_text, pj)
+    # small index / Pauli helpers: exhaustive over the supported sizes
+    recs += par.pmap(workers.zpauli, [(n, b) for n in range(1, 7) for b in range(1 << n)])
+    recs += par.pmap(workers.pairidx, [(n, i, j) for n in range(2, 9 if quick else 13) for i in range(n) for j in range(i + 1, n)])
+    lj = [[]] + [[[rng.randrange(6) for _ in range(rng.randrange(1, 5))] for _ in range(rng.randrange(1, 6))] for _ in range(80 if quick else 800)]
+    recs += par.pmap(workers.repr_groups, lj)
     good = [r for r in recs if not (r.get("exc") and r["op"] in ("graphbuild", "same"))]
     findings = {}
     for r in recs:
@@ -96,7 +104,7 @@ def run(tier):
         print(f"EXTRA-FINDING: {k}: {len(x)} record(s), e.g. {str(brief)[:260]}")
     ck.sample(good[3])
     ck.sample(good[-1])
-    ck.cov["by_op"] = {op: sum(1 for r in recs if r["op"] == op) for op in ("graphbuild", "rotate", "synth", "same", "parse")}
+    ck.cov["by_op"] = {op: sum(1 for r in recs if r["op"] == op) for op in ("graphbuild", "rotate", "synth", "same", "parse", "zpauli", "pairidx", "repr")}
     ck.cov["rule"] = "one record per call; distinct = record; all non-trivial"
     ck.violations = []           # observations only: nothing here is one of the listed properties
     return ck.finish()
